@@ -318,7 +318,7 @@ class Interp:
         self.steps = 0
 
     # -- calls ------------------------------------------------------------
-    def call_function(self, m, fn, args: List[Any], kwargs: Dict[str, Any], self_obj=None):
+    def call_function(self, m, fn, args: List[Any], kwargs: Dict[str, Any], self_obj=None, base_env=None):
         self.depth += 1
         if self.depth > (getattr(self.sc, "max_depth", None) or self.MAX_DEPTH):
             raise AnalysisError("circuit evaluation: inlining depth exceeded")
@@ -326,9 +326,11 @@ class Interp:
             self.frames = []
         self.frames.append((fn, m, self_obj))
         try:
-            env: Dict[str, Any] = {}
+            env: Dict[str, Any] = dict(base_env or {})  # (a closure starts from the environment it was defined in)
             a = fn.args
             pos = [x.arg for x in a.posonlyargs + a.args]
+            for p_ in pos + [x.arg for x in a.kwonlyargs]:
+                env.pop(p_, None)
             vals = list(args)
             if self_obj is not None and pos and pos[0] in ("self", "cls"):
                 env[pos[0]] = self_obj
@@ -1044,6 +1046,8 @@ class Interp:
         if isinstance(o, Obj):
             if attr == "__class__" and o.cls is not None:
                 return ("class", o.cls)
+            if attr == "__dict__" and o.cls is not None and not self.ev.is_struct(o.cls):
+                return o.fields  # the instance dictionary itself (writes through it are writes to the object)
             if o.kind == "self":
                 if attr == "_debug":
                     return self.sc.debug
@@ -1092,6 +1096,9 @@ class Interp:
                 if la is not None and la[2] is not None and not self.repo.is_dataclass(la[0]):
                     return self.class_attr((la[0], attr, la[2]))
                 if getattr(self.sc, "ctypes_model", False) and self.ev.is_struct(o.cls):
+                    raise EvalRaise("AttributeError", f"'{o.cls.name}' object has no attribute '{attr}'")
+                if getattr(self.sc, "real_objects", False):
+                    # every object of the scenario was built by its own constructor: what it does not have, it does not have
                     raise EvalRaise("AttributeError", f"'{o.cls.name}' object has no attribute '{attr}'")
             raise AnalysisError(f"circuit evaluation: attribute {attr} of {o!r}")
         if isinstance(o, Imm):
@@ -1387,19 +1394,8 @@ class Interp:
                 return self.call_function(r[0].module, r[1], args, kwargs, self_obj=("class", f[1]))
             if kind == "closure":
                 _, fn, cenv, cm = f
-                sub = Interp(self.repo, self.ev, self.sc, self.self_cls)
-                sub.depth = self.depth
-                # closures read the enclosing environment
-                env2 = dict(cenv)
-                params = A.param_names(fn)
-                for p, v in zip(params, args):
-                    env2[p] = v
-                env2.update(kwargs)
-                try:
-                    self.block(fn.body, env2, cm)
-                except _Return as r:
-                    return r.value
-                return None
+                # closures read the enclosing environment; parameters are bound as for any function (defaults, * and **)
+                return self.call_function(cm, fn, list(args), dict(kwargs), base_env=cenv)
             if kind == "partial":
                 _, pf, pargs, pkw = f
                 return self.apply(pf, list(pargs) + list(args), dict(pkw, **kwargs), node, m)
@@ -1602,6 +1598,9 @@ class Interp:
             r = self.repo.lookup(o.cls, name)
             if r is None:
                 raise AnalysisError(f"circuit evaluation: method {name} not found")
+            dec_ = self._decorated(r, o)
+            if dec_ is not None:
+                return self.apply(dec_, [o] + list(args), kwargs, node, r[0].module)
             return self.call_function(r[0].module, r[1], args, kwargs, self_obj=self._receiver(r[1], o))
         if o.kind == "qubit":
             self.sc.recorded.append((name, o, args, kwargs))
@@ -1620,8 +1619,32 @@ class Interp:
                 return self.sc.overrides[name](*args, **kwargs)
             r = self.repo.lookup(o.cls, name)
             if r is not None:
+                dec_ = self._decorated(r, o)
+                if dec_ is not None:
+                    return self.apply(dec_, [o] + list(args), kwargs, node, r[0].module)
                 return self.call_function(r[0].module, r[1], args, kwargs, self_obj=self._receiver(r[1], o))
         raise AnalysisError(f"circuit evaluation: method {name} of {str(o)[:80]}")
+
+    def _decorated(self, r, o):
+        """With `sc.apply_decorators`: the callable a method decorated with functions of the repository really is - the decorators
+        applied, innermost first, to the plain function (which then takes the object as its first argument).  None when the method
+        has no such decorator (property / classmethod / staticmethod / abstractmethod / library decorators are not function wrappers
+        here)."""
+        if not getattr(self.sc, "apply_decorators", False):
+            return None
+        k, fn = r[0], r[1]
+        decs = []
+        for d_ in fn.decorator_list:
+            nm = (dotted(d_.func if isinstance(d_, ast.Call) else d_) or "").split(".")[-1]
+            if nm in ("property", "classmethod", "staticmethod", "abstractmethod", "contextmanager", "setter", "wraps", "dataclass"):
+                continue
+            decs.append(d_)
+        if not decs:
+            return None
+        f = ("func", k.module, fn)
+        for d_ in reversed(decs):
+            f = self.apply(self.eval(d_, {}, k.module), [f], {}, d_, k.module)
+        return f
 
 
 def object_from_init(repo, cls, overrides=None, kind="obj"):
